@@ -242,7 +242,14 @@ impl DependencySnapshot {
                                             .version_sets_in_union(version_set_union_id)
                                             .collect();
 
-                                        for &version_set in version_sets.iter() {
+                                        // Visit the members in the order the provider
+                                        // lists them, not in the order of the hash set:
+                                        // the order in which the provider is queried
+                                        // must not depend on the hash seed.
+                                        for version_set in cache
+                                            .provider()
+                                            .version_sets_in_union(version_set_union_id)
+                                        {
                                             if seen.insert(Element::VersionSet(version_set)) {
                                                 queue.push_back(Element::VersionSet(version_set));
                                             }
